@@ -286,6 +286,42 @@ def run(chk):
             chk.ob('R17.4', inst + ': the stored (a, n, P) satisfy Kepler\'s third law for the masses as they are now', ok,
                    'the triple still belongs to the old mass (the update was skipped because the value looked unchanged)', mo.where(ms[meth]),
                    key=f'R17.4|{inst}', method='interpreted mutator history + GF(p^2) PIT')
+    # sequences of updates ("for all sequences of orbit updates given as period, frequency or semi-major axis"): two and three updates through different quantities and
+    # entry points, for the same moon and for two different moons, starting from a populated orbit and from one whose state was cleared; afterwards every slot that
+    # was addressed holds a Kepler-consistent triple with the LAST value given for it, and the other moon's slot is as it was left
+    kep_cases = [c_ for c_ in cases if (list(c_[1])[0] if c_[1] else c_[0][4:]) != 'eccentricity']
+    import itertools as _it
+    seqs2 = list(_it.product(range(len(kep_cases)), repeat=2))
+    if chk.tier == 'quick':
+        seqs2 = [q_ for q_ in seqs2 if (q_[0] * 7 + q_[1] * 3) % 5 == 0]
+    nseq_ = 0
+    for start in ('populated', 'cleared'):
+        for idxs in seqs2:
+            for slots in ((2, 2), (1, 2)):
+                o, worlds = fresh()
+                if start == 'cleared' and 'clear_state' in ms:
+                    it2.call(mo, ms['clear_state'], [], {}, self_obj=o)
+                last = {}
+                for step, (ci, slot_) in enumerate(zip(idxs, slots)):
+                    meth, kw = kep_cases[ci]
+                    which = list(kw)[0] if kw else meth[4:]
+                    v_ = X.atom(f'value_step{step + 1}', 'pos')
+                    if meth == 'set_state':
+                        it2.call(mo, ms[meth], [slot_], {which: v_, 'set_stellar_orbit': False}, self_obj=o)
+                    else:
+                        it2.call(mo, ms[meth], [slot_, v_], {'set_stellar_orbit': False}, self_obj=o)
+                    last[slot_] = (which, v_)
+                bad = []
+                for slot_, (which, v_) in last.items():
+                    ok, why = kepler_ok(o, slot_, False)
+                    stored = {'semi_major_axis': '_semi_major_axes', 'orbital_frequency': '_orbital_frequencies', 'orbital_period': '_orbital_periods'}[which]
+                    if not ok: bad.append(why)
+                    elif o.attrs[stored][slot_] is not v_: bad.append(f'slot {slot_}: the last {which} given is not what is stored')
+                nseq_ += 1
+                lab_ = ' ; '.join(f'{kep_cases[ci][0]}({(list(kep_cases[ci][1])[0] if kep_cases[ci][1] else kep_cases[ci][0][4:])}) for moon {sl_}' for ci, sl_ in zip(idxs, slots))
+                chk.ob('R17.4', f'orbit {start}; {lab_}: every addressed slot holds a Kepler-consistent (a, n, P) with the last value given', not bad, '; '.join(bad[:2]), mo.where(ms[kep_cases[idxs[-1]][0]]),
+                       key=f'R17.4|seq|{start}|{idxs}|{slots}', method='interpreted mutator sequence + GF(p^2) PIT')
+    chk.note_analysed('orbit update sequences', nseq_)
     # readers and writers agree on the slot: what a setter stored for (signature, stellar flag) is what the getter of the same (signature, flag) reports,
     # and the three getters of one (signature, flag) read one and the same slot
     getters = {'get_semi_major_axis': '_semi_major_axes', 'get_orbital_frequency': '_orbital_frequencies', 'get_orbital_period': '_orbital_periods', 'get_eccentricity': '_eccentricities'}
